@@ -103,7 +103,7 @@ def project_spec(st, bind=None):
         ev = []
         for e in cl["events"]:
             if e["k"] in ("message", "code", "closed"):
-                ev.append([e["k"], e["v"]])
+                ev.append([e["k"], "Internal" if e["v"].startswith("Internal") else e["v"]])
             else:
                 ev.append([e["k"], ""])
         n = st["net"][c]
@@ -158,7 +158,8 @@ def project_real(world, bind):
             elif k == "code":
                 ev.append([k, bind.code_class(v)])
             elif k == "closed":
-                ev.append([k, _verdict_name(v)])
+                vn = _verdict_name(v)
+                ev.append([k, "Internal" if vn.startswith("Internal") else vn])
             else:
                 ev.append([k, ""])
         conn = world.live_conn(cl)
